@@ -45,7 +45,7 @@ def cmd_import(src, sid, prop):
     d = f"{V}/seeded/{sid}"
     os.makedirs(d, exist_ok=True)
     text = open(f"{src}/patch.diff").read()
-    open(f"{d}/patch.orig.diff", "w").write(text)
+    open(f"{d}/patch.diff", "w").write(text)
     open(f"{d}/core.diff", "w").write(core_of(text))
     if os.path.isdir(f"{src}/demo"):
         shutil.rmtree(f"{d}/demo", ignore_errors=True)
@@ -116,7 +116,7 @@ def cmd_refresh(sid):
     meta = json.load(open(f"{d}/meta.json"))
     try:
         if meta.get("apply_full"):
-            r = sh(f"git -C {wt} apply --whitespace=nowarn {d}/patch.orig.diff")
+            r = sh(f"git -C {wt} apply --whitespace=nowarn {d}/patch.diff")
             if r.returncode != 0:
                 print(sid, "APPLY FAILED", r.stderr[:800]); return 1
         else:
@@ -131,9 +131,9 @@ def cmd_refresh(sid):
                 print(sid, "REGEN problems:", rr.stdout[-600:])
         sh(f"git -C {wt} checkout -- go.sum")
         diff = sh(f"git -C {wt} diff").stdout
-        open(f"{d}/patch.diff", "w").write(diff)
+        open(f"{d}/patch.refreshed.diff", "w").write(diff)
         sh(f"git -C {wt} checkout -- . && git -C {wt} clean -fdq")
-        chk = sh(f"git -C {wt} apply --check {d}/patch.diff")
+        chk = sh(f"git -C {wt} apply --check {d}/patch.refreshed.diff")
         print("refreshed", sid, "files:", len(split_patch(diff)), "apply-check:", chk.returncode)
     finally:
         sh(f"git -C {R} worktree remove --force {wt}")
@@ -157,7 +157,7 @@ def cmd_wt(sid, checks, verify=True):
             print(f"{sid}: demo on the clean tree: {meta['demo_without_change']}")
         if meta.get("apply_full"):
             # the change is about WHICH files were (not) regenerated: apply the agent's patch as it is
-            r = sh(f"git -C {wt} apply --whitespace=nowarn {d}/patch.orig.diff")
+            r = sh(f"git -C {wt} apply --whitespace=nowarn {d}/patch.diff")
             if r.returncode != 0:
                 print(sid, "APPLY FAILED", r.stderr[:1500]); return 1
         else:
